@@ -7,5 +7,5 @@ import (
 )
 
 func TestSim(t *testing.T) {
-	harness.Main(t, map[string]harness.WorldFunc{"ep": Run, "ep06": RunC06})
+	harness.Main(t, map[string]harness.WorldFunc{"ep": Run, "ep06": RunC06, "ep09": RunC09P})
 }
